@@ -43,6 +43,34 @@ pub enum ResultColumn {
     Agg(usize),
 }
 
+/// Determines how the compiled WHERE expression is applied.
+/// The expression has to be boolean (or NULL, which is never true).
+/// An integer constant is accepted as well (a query without WHERE clause has the filter `1`): 0 is false, anything else true.
+fn where_filter(
+    filter_plan: TypedBufferRef,
+    filter_type: &Type,
+    planner: &QueryPlanner,
+) -> Result<Filter, QueryError> {
+    Ok(match filter_plan.tag {
+        EncodingType::U8 if filter_type.decoded == BasicType::Boolean => {
+            Filter::U8(filter_plan.u8()?)
+        }
+        EncodingType::NullableU8 if filter_type.decoded == BasicType::Boolean => {
+            Filter::NullableU8(filter_plan.nullable_u8()?)
+        }
+        EncodingType::Null => Filter::Null,
+        EncodingType::ScalarI64 => match planner.resolve(&filter_plan) {
+            QueryPlan::ScalarI64 { value: 0, .. } => Filter::Null,
+            _ => Filter::None,
+        },
+        _ => bail!(
+            QueryError::TypeError,
+            "WHERE clause must be a boolean expression, found {:?}",
+            filter_type
+        ),
+    })
+}
+
 impl NormalFormQuery {
     #[inline(never)] // produces more useful profiles
     pub fn run<'a>(
@@ -57,19 +85,14 @@ impl NormalFormQuery {
         let limit = (self.limit.limit + self.limit.offset) as usize;
         let mut planner = QueryPlanner::default();
 
-        let (filter_plan, _) = QueryPlan::compile_expr(
+        let (filter_plan, filter_type) = QueryPlan::compile_expr(
             &self.filter,
             Filter::None,
             columns,
             partition_range.len(),
             &mut planner,
         )?;
-        let mut filter = match filter_plan.tag {
-            EncodingType::U8 => Filter::U8(filter_plan.u8()?),
-            EncodingType::NullableU8 => Filter::NullableU8(filter_plan.nullable_u8()?),
-            EncodingType::Null => Filter::Null,
-            _ => Filter::None,
-        };
+        let mut filter = where_filter(filter_plan, &filter_type, &planner)?;
 
         // Sorting
         let mut sort_indices = None;
@@ -206,19 +229,14 @@ impl NormalFormQuery {
         let mut qp = QueryPlanner::default();
 
         // Filter
-        let (filter_plan, _) = QueryPlan::compile_expr(
+        let (filter_plan, filter_type) = QueryPlan::compile_expr(
             &self.filter,
             Filter::None,
             columns,
             partition_range.len(),
             &mut qp,
         )?;
-        let filter = match filter_plan.tag {
-            EncodingType::Null => Filter::Null,
-            EncodingType::U8 => Filter::U8(filter_plan.u8()?),
-            EncodingType::NullableU8 => Filter::NullableU8(filter_plan.nullable_u8()?),
-            _ => Filter::None,
-        };
+        let filter = where_filter(filter_plan, &filter_type, &qp)?;
 
         // Combine all group by columns into a single decodable grouping key
         let group_by_plan = query_plan::compile_grouping_key(
